@@ -95,7 +95,7 @@ PROPS = {
                             "Cosmos SDK / CometBFT / IAVL are deterministic (the SDK's panic stack trace in a failed transaction's log is cut before comparison)"],
             "level_text": "PARTIAL proof: Lean theorems show that the modelled transitions do not depend on the order in which unordered collections are presented at the points where the Go code ranges over maps or unsorted slices (BSC validator set and recent-signer table, routing rules); determinism of the real execution is checked by record-and-replay: every block a real chain executed in a history of all TIBC transaction kinds is re-executed on two (thorough: four) fresh applications built from a key/value snapshot, and once more in a separate operating-system process from a history file; transaction results (code, data, log, gas, events) and application hashes must be byte-identical.",
             "technique": "Lean 4 order-independence theorems + record/replay differential execution of the real application",
-            "explanation": "Lean: Props/C20. Replay: det stream (NFT/MT transfers over a relay, TM / BSC / ETH client updates incl. rotations and forks, clean packets; ~100 blocks per case)."},
+            "explanation": "Static part: every reference to the host clock / a random source / the process environment in the state-machine packages is extracted from the source on every run and pinned by Expect/Determinism (replicas replayed at one wall-clock time cannot observe such a dependence). Lean: Props/C20. Replay: det stream (NFT/MT transfers over a relay, TM / BSC / ETH client updates incl. rotations and forks, clean packets; ~100 blocks per case)."},
     "C16": {"level": "proof", "lean_modules": ["Tibc.Props.C16"],
             "streams": [{"name": "genesis", "test": "TestStreamGenesis", "cases": 3, "ops": 100, "thorough_scale": 10, "model": False}, KEYS_STREAM],
             "assumptions": ["the genesis types are modelled by what their fields can carry (protobuf / JSON encoding of the genesis file abstract)",
